@@ -13,6 +13,9 @@
 (*   {"e":"M2L","l":level,"t":target,"s":[sources],"c":[codes]}            *)
 (*   {"e":"P2P","t":target leaf,"s":[source leaf],"c":[code]}              *)
 (*   {"e":"End"}                                                           *)
+(*   {"e":"Tree","which":0|1,"groups":[level][group][cell],"leaves":[..]}  *)
+(*   {"e":"Find","which":0|1,"leaf":0|1,"l":level,"m":index,"g":..,"p":..} *)
+(*   {"e":"Rebuild","sparts":[...],"tparts":[...]}                         *)
 (* A call is accepted iff it is an enabled batch of the specification WITH *)
 (* EXACTLY THOSE ARGUMENTS: every elementary interaction it names exists   *)
 (* for this occupancy (right level, true parent/child and octant code,     *)
@@ -38,18 +41,50 @@ BatchOf(e) ==
     [] e.e \in {"M2M", "M2L", "L2L"} -> { <<e.e, e.l, e.t, e.s[k], e.c[k]>> : k \in 1..Len(e.s) }
     [] OTHER -> {}
 
-Unused == /\ UNCHANGED <<bs, ogpp, sgroups, tgroups, mp, lo, rhs, pcs, ops, cnt, elemDigest, hname, above, init0>>
+UnusedBut(keepGroups) == /\ UNCHANGED <<mp, lo, rhs, pcs, ops, cnt, elemDigest, hname, above, init0>>
+                         /\ (keepGroups => UNCHANGED <<bs, ogpp, sgroups, tgroups>>)
+Unused == UnusedBut(TRUE)
 
 TraceInit == /\ i = 1 /\ sparts = <<>> /\ tparts = <<>> /\ stop = 0 /\ pending = {} /\ bad = "" /\ step = 0
              /\ bs = 0 /\ ogpp = FALSE /\ sgroups = <<>> /\ tgroups = <<>> /\ mp = <<>> /\ lo = <<>> /\ rhs = <<>>
              /\ pcs = <<>> /\ ops = <<>> /\ cnt = ZeroCnt /\ elemDigest = 0 /\ hname = "trace" /\ above = 0 - 1 /\ init0 = <<>>
 
-\* a new execution starts: the pending set is everything the specification requires for this occupancy
+\* a new session starts: the pending set is everything the specification requires for this occupancy
 TInit == /\ i <= Len(Tr) /\ Ev.e = "Init" /\ pending = {}
          /\ sparts' = SeqOfList(Ev.sparts) /\ tparts' = SeqOfList(Ev.tparts) /\ stop' = Ev.stop
+         /\ bs' = Ev.bs /\ ogpp' = Ev.ogpp /\ sgroups' = <<>> /\ tgroups' = <<>>
          /\ pending' = LET s2 == SeqOfList(Ev.sparts) t2 == SeqOfList(Ev.tparts) IN ElementaryFor(s2, t2, Ev.stop)
-         /\ step' = 0 /\ bad' = "" /\ i' = i + 1 /\ Unused
-TCall == /\ i <= Len(Tr) /\ Ev.e \notin {"Init", "End"}
+         /\ step' = 0 /\ bad' = "" /\ i' = i + 1 /\ UnusedBut(FALSE)
+\* the group structure observed on the real tree (after construction, after every rebuild): it must be the tree the
+\* specification builds for the current occupancy, satisfy the structural invariants of C07 as stated on the observed value,
+\* and the particle groups must mirror the leaf cell groups cell by cell
+JGroups(j) == [l \in 1..Len(j) |-> [g \in 1..Len(j[l]) |-> [c \in 1..Len(j[l][g]) |-> j[l][g][c]]]]
+TTree == /\ i <= Len(Tr) /\ Ev.e = "Tree"
+         /\ LET G == JGroups(Ev.groups)
+                occ == IF Ev.which = 0 THEN SeqToSet(sparts) ELSE SeqToSet(tparts)
+            IN /\ Len(G) = Height
+               /\ TreeInvariant(G, occ, bs, ogpp)
+               /\ G = BuildTree(occ, bs, ogpp)
+               /\ JGroups(<<Ev.leaves>>)[1] = G[Height]
+               /\ IF Ev.which = 0 THEN sgroups' = G /\ tgroups' = (IF Tsm THEN tgroups ELSE G)
+                                   ELSE tgroups' = G /\ sgroups' = sgroups
+         /\ i' = i + 1 /\ UNCHANGED <<sparts, tparts, stop, pending, bad, step, bs, ogpp>> /\ UnusedBut(FALSE)
+\* a look-up made on the real tree answers what the transcribed look-up answers on the recorded structure: the group and the
+\* position of the cell / leaf if it exists, nothing otherwise (C16)
+TFind == /\ i <= Len(Tr) /\ Ev.e = "Find"
+         /\ LET G == IF Ev.which = 0 THEN sgroups ELSE tgroups IN
+            /\ G # <<>>
+            /\ Find(G, Ev.l, Ev.m) = <<Ev.g, Ev.p>>
+            /\ (Ev.m \in CellsAt(G, Ev.l) <=> Ev.g > 0)
+         /\ i' = i + 1 /\ UNCHANGED <<sparts, tparts, stop, pending, bad, step>> /\ Unused
+\* particles were edited in place and rebuild() was called: allowed only between passes (nothing pending); a new pass over
+\* the new occupancy starts (the group structure is stale until the next Tree event)
+TRebuild == /\ i <= Len(Tr) /\ Ev.e = "Rebuild" /\ pending = {}
+            /\ sparts' = SeqOfList(Ev.sparts) /\ tparts' = SeqOfList(Ev.tparts)
+            /\ pending' = LET s2 == SeqOfList(Ev.sparts) t2 == SeqOfList(Ev.tparts) IN ElementaryFor(s2, t2, stop)
+            /\ sgroups' = <<>> /\ tgroups' = <<>>
+            /\ step' = 0 /\ i' = i + 1 /\ UNCHANGED <<stop, bad, bs, ogpp>> /\ UnusedBut(FALSE)
+TCall == /\ i <= Len(Tr) /\ Ev.e \notin {"Init", "End", "Tree", "Find", "Rebuild"}
          /\ LET B == BatchOf(Ev) IN
             /\ B # {}                                              \* no operator is called with an empty list
             /\ (Ev.e \in {"M2M", "M2L", "L2L"} => Cardinality(B) = Len(Ev.s))   \* no source handed twice in one call
@@ -59,7 +94,7 @@ TCall == /\ i <= Len(Tr) /\ Ev.e \notin {"Init", "End"}
          /\ step' = step + 1 /\ i' = i + 1 /\ UNCHANGED <<sparts, tparts, stop, bad>> /\ Unused
 TEnd == /\ i <= Len(Tr) /\ Ev.e = "End" /\ pending = {}                \* nothing lost
         /\ i' = i + 1 /\ UNCHANGED <<sparts, tparts, stop, pending, bad, step>> /\ Unused
-TraceNext == TInit \/ TCall \/ TEnd
+TraceNext == TInit \/ TTree \/ TFind \/ TRebuild \/ TCall \/ TEnd
 TraceSpec == TraceInit /\ [][TraceNext]_tvars
 Accepted == TLCGet("stats").diameter - 1 = Len(Tr)
 \* for the report of a rejection: how far the trace was consumed
